@@ -137,6 +137,7 @@ def natural_promptness(ctx, s4, rng, d):
             blk = b"".join(hashlib.sha256(b"%d-%d-%d" % (rnd, i, k)).hexdigest().encode() for k in range(1 << 15))
             f.write(c.compress(blk))
         f.write(c.flush())
+    out = []
     smalls_bad, smalls_ok = [], []
     ok_src = [p for p in fixtures.evtxs() if "kernelpnp" in p]
     for i in range(30):
@@ -145,12 +146,34 @@ def natural_promptness(ctx, s4, rng, d):
         okb = gen.gz_bytes(open(ok_src[0], "rb").read(), level=1)
         for i in range(30):
             smalls_ok.append(gen.write(os.path.join(d, "small-ok-%02d.evtx.gz" % i), okb))
+    # a source that fails part way through its extraction beside sources that are still being extracted, then Ctrl-C:
+    # whatever the failing source does to the shared temp-file list must not hide the others' files from the handler
+    okd = open(ok_src[0], "rb").read() if ok_src else b"ElfFile\0" + bytes(5000)
+    for j in (2, 3):
+        try:
+            os.link(big, os.path.join(d, "big%d.evtx.xz" % j))
+        except OSError:
+            import shutil
+            shutil.copyfile(big, os.path.join(d, "big%d.evtx.xz" % j))
+    bigs = [big, os.path.join(d, "big2.evtx.xz"), os.path.join(d, "big3.evtx.xz")]
+    truncs = []
+    for c in ("gz", "bz2", "xz", "lz4"):
+        kw = {"split": 65536, "stored": True} if c == "lz4" else ({"level": 1} if c in ("gz", "bz2") else {"preset": 0})
+        whole = gen.contain(okd, c, **kw)
+        for frac in (0.5, 0.9):
+            truncs.append(gen.write(os.path.join(d, "trunc-%s-%d.evtx.%s" % (c, int(frac * 100), c)), whole[:int(len(whole) * frac)]))
+    for k in range(ctx.pick(8, 40)):
+        files = [rng.choice(truncs)] + bigs
+        if k % 4 == 3:
+            rng.shuffle(files)
+        wd = os.path.join(ctx.work, "nf%03d" % k)
+        out.append(one(dict(s4=s4, files=files, kinds=("evtx",), conts=("mixed",), extra_env={}, mode="sigint", sig_after_event="tmpdir-not-empty",
+                            sig_delay=rng.choice([0.3, 0.6, 1.0]), tmp=os.path.join(wd, "tmp"), trace=None, phase="sigint:failed-source-beside-extracting-ones")))
     variants = [("solo", [], [])]
     for k in ctx.pick([30], [3, 10, 30]):
         variants.append(("%d-failed-sources-done" % k, [], smalls_bad[:k]))
         if smalls_ok:
             variants.append(("%d-filtered-sources-done" % k, ["-a", "20400101T000000"], smalls_ok[:k]))
-    out = []
     n = 0
     for name, opts, smalls in variants:
         files = opts + smalls + [big]
